@@ -1,5 +1,5 @@
 #!/venv/bin/python
-"""prompt for a sub-agent that produces a behaviour-preserving refactoring (a twin) of the code a property depends on. usage: make_refactor_prompt.py <TAG>  (TAG = Cxx + 'r' + letter)"""
+"""prompt for a sub-agent that produces a behaviour-preserving refactoring (a twin) of the code a property depends on. usage: make_refactor_prompt.py <TAG> [function ...]  (TAG = Cxx + 'r' + letter; the optional function names of the package steer the agent to code that no earlier twin touched)"""
 import json, os, subprocess, sys
 tag = sys.argv[1]
 pid = tag[:3]
@@ -10,6 +10,8 @@ for l in open("/verif/properties.jsonl"):
     if d["id"] == pid:
         prop = f"{d['id']}: {d['title']}\n\nStatement: {d['statement']}\n\nQuantifier: {d['quantifier']['text']}\n"
 txt = open("/verif/tools/refactor_prompt_template.txt").read().replace("{WT}", wt).replace("{OUT}", out).replace("{PROP}", prop).replace("{PID}", pid)
+if sys.argv[2:]:
+    txt = txt.replace("TASK: make", "FOCUS: earlier rounds already refactored other functions; this time at least two of the functions you change must be among: " + ", ".join(sys.argv[2:]) + ".\n\nTASK: make", 1)
 open(f"/tmp/seed_out/prompt_{tag}.txt", "w").write(txt)
 if not os.path.exists(wt):
     subprocess.run(["git", "-C", "/repo", "worktree", "add", "-q", "--detach", wt, "HEAD"], check=True)
